@@ -54,4 +54,6 @@ prop("C20", "Unbounded proof that the clean-up removes a stray partial only when
 os.makedirs(os.path.join(V, "props"), exist_ok=True)
 for pid, p in P.items():
     json.dump(p, open(os.path.join(V, "props", pid + ".json"), "w"), indent=1)
+if os.environ.get("DEV"):
+    json.dump(dict(property="DEV", functions=os.environ["DEV"].split(","), claimed=False), open(os.path.join(V, "props", "DEV.json"), "w"))
 print("props:", sorted(P))
